@@ -141,6 +141,44 @@ class AddLogging(ast.NodeTransformer):
     visit_AsyncFunctionDef = visit_FunctionDef
 
 
+class StripLogging(ast.NodeTransformer):
+    """Remove every `self.log.<level>(...)` / `log.<level>(...)` expression statement."""
+
+    def visit_Expr(self, node):
+        v = node.value
+        if isinstance(v, ast.Call) and isinstance(v.func, ast.Attribute) and v.func.attr in ("debug", "info", "warning", "error") and isinstance(v.func.value, (ast.Attribute, ast.Name)):
+            base = v.func.value
+            name = base.attr if isinstance(base, ast.Attribute) else base.id
+            if name in ("log", "_log", "logger", "_alglog") or name.endswith("_log") or name.endswith("__log"):
+                return ast.copy_location(ast.Pass(), node)
+        return node
+
+
+class ChainCompare(ast.NodeTransformer):
+    """`x >= A and x < B`  ->  `A <= x < B` for a Name x."""
+
+    def visit_BoolOp(self, node):
+        self.generic_visit(node)
+        if isinstance(node.op, ast.And) and len(node.values) == 2:
+            a, b = node.values
+            if all(isinstance(c, ast.Compare) and len(c.ops) == 1 and isinstance(c.left, ast.Name) for c in (a, b)) and a.left.id == b.left.id:
+                if isinstance(a.ops[0], (ast.GtE, ast.Gt)) and isinstance(b.ops[0], (ast.Lt, ast.LtE)) and all(isinstance(c.comparators[0], ast.Constant) for c in (a, b)):
+                    lo = ast.LtE() if isinstance(a.ops[0], ast.GtE) else ast.Lt()
+                    return ast.copy_location(ast.Compare(left=a.comparators[0], ops=[lo, b.ops[0]], comparators=[a.left, b.comparators[0]]), node)
+        return node
+
+
+class DeMorgan(ast.NodeTransformer):
+    """`not (a and b)` -> `not a or not b`; `not (a or b)` -> `not a and not b`."""
+
+    def visit_UnaryOp(self, node):
+        self.generic_visit(node)
+        if isinstance(node.op, ast.Not) and isinstance(node.operand, ast.BoolOp):
+            op = ast.Or() if isinstance(node.operand.op, ast.And) else ast.And()
+            return ast.copy_location(ast.BoolOp(op=op, values=[ast.UnaryOp(op=ast.Not(), operand=v) for v in node.operand.values]), node)
+        return node
+
+
 VARIANTS = {
     "unparse": [],
     "rename-locals": [RenameLocals],
@@ -148,7 +186,10 @@ VARIANTS = {
     "swap-if-else": [SwapIfElse],
     "expand-augassign": [ExpandAug],
     "add-logging": [AddLogging],
-    "all": [RenameLocals, FlipCompare, SwapIfElse, ExpandAug, AddLogging],
+    "strip-logging": [StripLogging],
+    "chain-compare": [ChainCompare],
+    "de-morgan": [DeMorgan],
+    "all": [RenameLocals, FlipCompare, SwapIfElse, ExpandAug, AddLogging, ChainCompare, DeMorgan],
 }
 
 
